@@ -365,6 +365,18 @@ func ruleNamesOpaque(c *Ctx, rule string, iface *types.Interface, impls []*types
 						}
 					}
 				}
+				// one path tested as a prefix of another without a separator boundary: HasPrefix(p, dir) also
+				// matches the sibling "dirx/..." - the prefix must end with the separator
+				if q == "strings.HasPrefix" && fragment == "" && !alter {
+					if _, isConst := constString(ci.Arg(1)); !isConst && isStringy(ci.Arg(1).Type()) {
+						parts := flattenTemplate(resolve(ci.Arg(1)))
+						endsSep := len(parts) > 0 && parts[len(parts)-1].hole == "" && strings.HasSuffix(parts[len(parts)-1].konst, "/")
+						if !endsSep && bad == "" {
+							bad = "a path is tested with strings.HasPrefix against another path that does not end with the separator (it also matches sibling names that merely start with it)"
+							pos = ci.Pos()
+						}
+					}
+				}
 				if !alter && fragment == "" {
 					continue
 				}
